@@ -217,6 +217,7 @@ fn run_local(case: &Case, out: &mut Out) {
   locktrace::stop();
   vtime::install();
   vtime::reset();
+  vtime::set_real(case.has("realtimer"));
   // field `unit us`: one virtual tick is a microsecond (default: a millisecond)
   vtime::set_unit_nanos(if case.has("unit") && case.field("unit")[0].atom() == "us" { 1_000 } else { 1_000_000 });
   let ctx = LCtx::default();
@@ -322,6 +323,7 @@ fn run_local(case: &Case, out: &mut Out) {
 fn run_threads(case: &Case, out: &mut Out) {
   vtime::install();
   vtime::reset();
+  vtime::set_real(case.has("realtimer"));
   // field `unit us`: one virtual tick is a microsecond (default: a millisecond)
   vtime::set_unit_nanos(if case.has("unit") && case.field("unit")[0].atom() == "us" { 1_000 } else { 1_000_000 });
   let ctx = TCtx::default();
